@@ -324,6 +324,7 @@ int main(int argc, char **argv)
   unsigned long random;
   char **recips;
   unsigned long prefme;
+  int flagsoft = 0;
   char *relayhost;
  
   sig_pipeignore();
@@ -373,6 +374,7 @@ int main(int argc, char **argv)
     case DNS_HARD: perm_dns();
     case 1:
       if (ip.len <= 0) temp_dns();
+      flagsoft = 1; /* some MX could not be looked up right now */
   }
  
   if (ip.len <= 0) perm_nomx();
@@ -389,8 +391,10 @@ int main(int argc, char **argv)
     if (ip.ix[i].pref < prefme)
       break;
  
-  if (i >= ip.len)
+  if (i >= ip.len) {
+    if (flagsoft) temp_dns(); /* a better MX may exist; we just could not see it */
     perm_ambigmx();
+  }
  
   for (i = 0;i < ip.len;++i) if (ip.ix[i].pref < prefme) {
     if (tcpto(&ip.ix[i].ip)) continue;
